@@ -9,7 +9,7 @@ Open Scope Z_scope.
     transaction that fails at run time (CALL to an account without code). *)
 Definition e_cfg : config :=
   {| c_version := 3; c_zerofee := false; c_gas_price := 50000000000; c_chain := 7%N; c_name_price := 1000000000000000000;
-     c_stake_min := 10000000000000000000000; c_stake_delay := 86400%N; c_fix_f24 := true; c_fix_f18 := true |}.
+     c_stake_min := 10000000000000000000000; c_stake_delay := 86400%N; c_vote_delay := 86400%N; c_fix_f24 := true; c_fix_f18 := true |}.
 Definition e_tx k f t n a pl nm : tx :=
   {| t_kind := k; t_from := f; t_to := t; t_nonce := n; t_amount := a; t_plen := pl; t_gaslimit := 0; t_chain := 7%N;
      t_hash := 5%N; t_signer := f; t_name := nm; t_dest := 0%N; t_fddeny := false |}.
